@@ -2,7 +2,7 @@
 import os, sys, subprocess
 here = os.path.dirname(os.path.abspath(__file__))
 rc = 0
-for t in ("pyflow.py", "pyexpr.py"):
+for t in ("pyflow.py", "pyexpr.py", "pystate.py"):
     p = os.path.join(here, t)
     if os.path.exists(p):
         r = subprocess.run([sys.executable, "-B", p])
